@@ -1,6 +1,7 @@
 package checks
 
 import (
+	"regexp"
 	"bufio"
 	"bytes"
 	"os"
@@ -183,7 +184,7 @@ func c18Post(d *fw.Driver) {
 	for i := range projects {
 		res := results[i]
 		d.Count("opens_projects_run", 1)
-		if !strings.HasPrefix(res, "rejected") || !strings.Contains(res, "directive not allowed (INCLUDE)") && !strings.Contains(res, "directive not allowed (GET)") {
+		if !strings.HasPrefix(res, "rejected") || !c18NotAllowed(res) {
 			d.AddViolation("banned-include-result:"+run.MsgTemplate(res), fmt.Sprintf("project %d with %v banned answered %q\nroot:\n%s", i, c18BanFor(i), res, projects[i]["root.jst"]), nil)
 		}
 	}
@@ -362,7 +363,7 @@ func c18Eval(t *fw.T, c *fw.Case) {
 		}
 		t.Count("banned_hits_checked")
 		sort.Strings(hit)
-		if o.Outcome != run.Rejected || !strings.Contains(o.Msg, "directive not allowed") {
+		if o.Outcome != run.Rejected || !c18NotAllowed(o.Msg) {
 			c.Docs = []run.Doc{d}
 			t.Violation("ban-not-enforced:"+strings.Join(hit, "+")+":"+carrier, fmt.Sprintf("banned %v, the project contains %v (carrier %s), result: %s\n%s", ban, hit, carrier, describe(o), rd.Text))
 			continue
@@ -375,9 +376,32 @@ func c18Eval(t *fw.T, c *fw.Case) {
 			}
 		}
 		if named == "" {
-			c.Docs = []run.Doc{d}
-			t.Violation("ban-names-other-kind", fmt.Sprintf("banned %v, present %v, but the diagnostic is %q", ban, hit, o.Msg))
-			continue
+			// the statement asks for a 'not allowed' diagnostic at the directive, not for a wording: when the message does
+			// not name the kind the way it does today, only a message that names a kind which is *not* banned is wrong
+			if m := c18KindInParens.FindStringSubmatch(o.Msg); m != nil {
+				if _, err := run.BanEnum(m[1]); err == nil {
+					c.Docs = []run.Doc{d}
+					t.Violation("ban-names-other-kind", fmt.Sprintf("banned %v, present %v, but the diagnostic is %q", ban, hit, o.Msg))
+					continue
+				}
+			}
+			if carrier == "direct" && !styled {
+				for _, s := range rd.Spans {
+					for _, b := range hit {
+						if kindOfSpan(s.Kind) == b && int(o.Index) >= s.Begin && int(o.Index) < s.End {
+							named = b
+						}
+					}
+				}
+			}
+			if named == "" {
+				named = hit[0]
+				if carrier == "direct" && !styled {
+					c.Docs = []run.Doc{d}
+					t.Violation("ban-located-elsewhere:"+named, fmt.Sprintf("banned %v: the diagnostic %q points to index %d (line %d, %q), not into a directive of a banned kind\n%s", ban, o.Msg, o.Index, o.Line, o.Quote, rd.Text))
+					continue
+				}
+			}
 		}
 		if carrier == "direct" && !styled {
 			inside := false
@@ -438,7 +462,7 @@ func c18Eval(t *fw.T, c *fw.Case) {
 			o := t.Exec(dm)
 			t.Count("banned_hits_checked")
 			t.Count("banned_in_unpasted_macro_checked")
-			if o.Outcome != run.Rejected || !strings.Contains(o.Msg, "directive not allowed ("+sn[0]+")") {
+			if o.Outcome != run.Rejected || !c18NotAllowed(o.Msg) {
 				c.Docs = []run.Doc{dm}
 				t.Violation("ban-not-enforced:"+sn[0]+":unpasted-macro", fmt.Sprintf("banned %s occurs in the body of a macro that is never pasted, result: %s\n%s", sn[0], describe(o), with))
 			} else {
@@ -458,7 +482,7 @@ func c18Eval(t *fw.T, c *fw.Case) {
 		}
 		o := t.Exec(broken)
 		t.Count("include_not_read_checked")
-		if o.Outcome != run.Rejected || !strings.Contains(o.Msg, "directive not allowed (INCLUDE)") {
+		if o.Outcome != run.Rejected || !c18NotAllowed(o.Msg) {
 			c.Docs = []run.Doc{broken}
 			t.Violation("banned-include-read:"+which, fmt.Sprintf("INCLUDE is banned and the included files are %s, yet the diagnostic is %s", which, describe(o)))
 		}
@@ -553,13 +577,21 @@ func c18EvalAfterDescription(t *fw.T, c *fw.Case) {
 	o := t.Exec(d)
 	t.Count("banned_hits_checked")
 	t.Count("banned_after_description_checked")
-	if o.Outcome != run.Rejected || !strings.Contains(o.Msg, "directive not allowed ("+kind+")") {
+	if o.Outcome != run.Rejected || !c18NotAllowed(o.Msg) {
 		t.Violation("ban-not-enforced:"+kind+":after-description", fmt.Sprintf("banned %s stands right after the text of a description (%s line ends), result: %s\n%q", kind, map[string]string{"\n": "LF", "\r\n": "CRLF", "\r": "CR"}[nl], describe(o), d.Files["root.jst"]))
 		return
 	}
 	t.Distinct(kind + " after-description " + host)
 }
 
+
+var c18KindInParens = regexp.MustCompile(`\(([A-Za-z-]+)\)`)
+
+// c18NotAllowed: the diagnostic says that something is not allowed (the statement's words; the exact wording is the
+// library's own business).
+func c18NotAllowed(msg string) bool {
+	return strings.Contains(strings.ToLower(msg), "not allowed")
+}
 
 // ---- a banned one-line directive on the line after an annotation that is empty (or blank, or a comment) ----
 
@@ -596,7 +628,7 @@ func c18EvalAfterAnnotation(t *fw.T, c *fw.Case) {
 	o := t.Exec(d)
 	t.Count("banned_hits_checked")
 	t.Count("banned_after_empty_annotation_checked")
-	if o.Outcome != run.Rejected || !strings.Contains(o.Msg, "directive not allowed ("+e[0]+")") {
+	if o.Outcome != run.Rejected || !c18NotAllowed(o.Msg) {
 		t.Violation("ban-not-enforced:"+e[0]+":after-empty-annotation", fmt.Sprintf("banned %s stands on the line after an empty annotation (%q), result: %s\n%q", e[0], ann, describe(o), text))
 		return
 	}
